@@ -45,10 +45,12 @@ structure TEnv where
   inside : Bool
   superFails : Bool := false
   wall : Nat := 0
+  /-- what `calc_output()` does when `_restore_state` calls it -/
+  calcMode : CalcMode := .normal
 
 /-- the primitives of the timer methods = the model's event loop and block -/
 def tprims (c : Cfg) (env : TEnv) :
-    TimerPrims TSt String TEvent Dur Nat Nat (Option Val) Val Unit ErrKind where
+    TimerPrims TSt String TEvent Dur Nat Nat (Option Val) Val (String × Option Nat × Option Val) ErrKind where
   exc := excOf
   getState := fun t => t.st.state
   setState := fun q t => t.map (·.enter q)
@@ -82,14 +84,14 @@ def tprims (c : Cfg) (env : TEnv) :
   superStop := fun t => (t, if env.superFails then .error .fuel else .ok ())
   superStart := fun t => (t, if env.superFails then .error .fuel else .ok ())
   getSdata := fun t => t.st.input
-  setSdata := fun sd t => t.map fun s => { s with input := sd }
+  setSdata := fun sd t => t.map (·.setInput sd)
   istateLen2 := fun _ => false
   istatePad := fun x => x
-  istateUnpack := fun _ => none
-  checkState := fun _ t => (t, .ok ())
-  remaining := fun _ t => (t, .error .fuel)
+  istateUnpack := fun x => some x
+  checkState := fun q t => (t, if c.tbl.states.contains q then .ok () else .error .valueError)
+  remaining := fun w t => (t, .ok (.us ((w : Int) - ((t.st.now + env.wall : Nat) : Int))))
   timedEvent := fun _ q => (c.tbl.timedOf q).map (·.1)
-  calcOutput := fun t => match calcOutput c t.st with
+  calcOutput := fun t => match calcFor c t.st env.calcMode with
     | none => (t, .error .keyError)
     | some v => (t, .ok v)
   isUndef := fun v => v.isUndef
@@ -129,14 +131,14 @@ theorem tprims_event (c : Cfg) (env : TEnv) : (tprims c env).event = (fun ev => 
 theorem tprims_superStop (c : Cfg) (env : TEnv) : (tprims c env).superStop = (fun t => (t, if env.superFails then .error .fuel else .ok ())) := rfl
 theorem tprims_superStart (c : Cfg) (env : TEnv) : (tprims c env).superStart = (fun t => (t, if env.superFails then .error .fuel else .ok ())) := rfl
 theorem tprims_getSdata (c : Cfg) (env : TEnv) : (tprims c env).getSdata = (fun t => t.st.input) := rfl
-theorem tprims_setSdata (c : Cfg) (env : TEnv) : (tprims c env).setSdata = (fun sd t => t.map fun s => { s with input := sd }) := rfl
+theorem tprims_setSdata (c : Cfg) (env : TEnv) : (tprims c env).setSdata = (fun sd t => t.map (·.setInput sd)) := rfl
 theorem tprims_istateLen2 (c : Cfg) (env : TEnv) : (tprims c env).istateLen2 = (fun _ => false) := rfl
 theorem tprims_istatePad (c : Cfg) (env : TEnv) : (tprims c env).istatePad = (fun x => x) := rfl
-theorem tprims_istateUnpack (c : Cfg) (env : TEnv) : (tprims c env).istateUnpack = (fun _ => none) := rfl
-theorem tprims_checkState (c : Cfg) (env : TEnv) : (tprims c env).checkState = (fun _ t => (t, .ok ())) := rfl
-theorem tprims_remaining (c : Cfg) (env : TEnv) : (tprims c env).remaining = (fun _ t => (t, .error .fuel)) := rfl
+theorem tprims_istateUnpack (c : Cfg) (env : TEnv) : (tprims c env).istateUnpack = (fun x => some x) := rfl
+theorem tprims_checkState (c : Cfg) (env : TEnv) : (tprims c env).checkState = (fun q t => (t, if c.tbl.states.contains q then .ok () else .error .valueError)) := rfl
+theorem tprims_remaining (c : Cfg) (env : TEnv) : (tprims c env).remaining = (fun w t => (t, .ok (.us ((w : Int) - ((t.st.now + env.wall : Nat) : Int))))) := rfl
 theorem tprims_timedEvent (c : Cfg) (env : TEnv) : (tprims c env).timedEvent = (fun _ q => (c.tbl.timedOf q).map (·.1)) := rfl
-theorem tprims_calcOutput (c : Cfg) (env : TEnv) : (tprims c env).calcOutput = (fun t => match calcOutput c t.st with
+theorem tprims_calcOutput (c : Cfg) (env : TEnv) : (tprims c env).calcOutput = (fun t => match calcFor c t.st env.calcMode with
     | none => (t, .error .keyError)
     | some v => (t, .ok v)) := rfl
 theorem tprims_isUndef (c : Cfg) (env : TEnv) : (tprims c env).isUndef = (fun v => v.isUndef) := rfl
@@ -147,7 +149,7 @@ macro "ttsimp" "[" ts:Lean.Parser.Tactic.simpLemma,* "]" : tactic =>
   `(tactic| simp [Gen.TrM.seq, Gen.TrM.branch, Gen.TrM.call, Gen.TrM.assign, Gen.TrM.skip, Gen.TrM.matchOpt,
       Gen.TrM.upd, Gen.TrM.ret, Gen.TrM.raise, Gen.TrT.bindv, Gen.TrT.runProc, lift, TSt.map,
       tprims_exc, tprims_getState, tprims_setState, tprims_getActiveTimer, tprims_setActiveTimer, tprims_timersEnabled, tprims_setTimersEnabled, tprims_durIsNone, tprims_durEqInf, tprims_durationOf, tprims_timePeriod, tprims_cmpZero, tprims_callLater, tprims_cancelled, tprims_cancel, tprims_timerWhen, tprims_loopToUnix, tprims_event, tprims_superStop, tprims_superStart, tprims_getSdata, tprims_setSdata, tprims_istateLen2, tprims_istatePad, tprims_istateUnpack, tprims_checkState, tprims_remaining, tprims_timedEvent, tprims_calcOutput, tprims_isUndef, tprims_setOutput,
-      setCtx_proj, emit_proj, enter_proj, setNextEv_proj, excOf, $ts,*])
+      setCtx_proj, emit_proj, enter_proj, setInput_proj, setNextEv_proj, excOf, $ts,*])
 
 theorem map_cancel_of_not_live (s : St) (id : Nat) (h : handleLive s id = false) :
     s.timers.map (fun (x : Handle) => if x.id == id then { x with cancelled := true } else x) = s.timers := by
